@@ -19,6 +19,7 @@ BASE = """    ld {r: reg}, {x: u8} => 0x1 @ r @ x
     st {a: u16} => 0x40 @ a
     emit {x} => x`8
     nop => 0x00
+    nib => 0x1`4
 """
 VAR = """    jv {a} => { assert(a < 0x10), 0x5 @ a`4 }
     jv {a} => { assert(a >= 0x10), 0x60 @ a`16 }
@@ -74,9 +75,10 @@ def gen_macro(rng, k, macros, var, globs=(), taint=False):
             return [("sub", rng.choice(nums)), ("t", " * 2")]
         if labels and allow_label and r < 0.8:
             return [("lab", rng.choice(labels))]
-        if globs and r < 0.9:
-            # a global symbol named in the block's own text (declared before or after the call)
-            return [("t", rng.choice(list(globs)))]
+        if [g for g in globs if g not in labels] and r < 0.9:
+            # a global symbol named in the block's own text (declared before or after the call); a name the block itself
+            # declares as a label means that label
+            return [("t", rng.choice([g for g in globs if g not in labels]))]
         return [("t", str(rng.randrange(0, 60)))]
 
     def reg():
@@ -121,8 +123,14 @@ def gen_macro(rng, k, macros, var, globs=(), taint=False):
             body.append(("instr", toks))
             m.nested = True
             m.calls = getattr(m, "calls", []) + [callee.name]
-        else:
+        elif r < 0.985:
             body.append(("instr", [("t", "nop")]))
+        else:
+            # half an address unit: a block label behind it is not at a whole address (an error, as for a label written in
+            # place) unless a second one follows
+            body.append(("instr", [("t", "nib")]))
+            if rng.random() < 0.6:
+                body.append(("instr", [("t", "nib")]))
     for l in pend:
         body.append(("label", l))
     m.body = body
@@ -184,8 +192,15 @@ def gen_macro_program(rng, var, taint=False):
     nm = rng.randrange(1, 4)
     macros = []
     globs = ["g%d" % i for i in range(rng.randrange(1, 4))]
+    if taint and rng.random() < 0.35:
+        # a global label named like a label some block declares: passed as an argument, its text is captured by the block's
+        # own label (the other direction of finding F40)
+        globs[rng.randrange(len(globs))] = rng.choice(["lba", "lbb"])
     for k in range(nm):
         macros.append(gen_macro(rng, k, macros[:], var, globs, taint))
+    for m in macros:
+        if any(g in m.labels for g in globs):
+            m.f40 = True
     lines = []       # ('label', n) | ('call', name, args) | ('raw', text)
     pend = list(globs)
     for _ in range(rng.randrange(2, 8)):
@@ -399,6 +414,15 @@ def run(chk):
         chk.count("recursion_case")
         if not il.startswith("err"):
             chk.violate("unbounded recursion is not reported as an error (%s)" % what, {"program": t}, "error", il[:200])
+    # recorded findings that the random stream does not reach: replay their pairs
+    for k in known.values():
+        if k.get("signature", {}).get("classifier") == "witness_pair":
+            w = k["replay"]
+            r = [fw.asm_line(a) for a in fw.run_oracle_resilient([fw.asm_op([("main.asm", w["program"])]), fw.asm_op([("main.asm", w["inlined"])])], "c17k")]
+            if bits_of(r[0]) != bits_of(r[1]):
+                chk.known(k["id"], k["observed"])
+            else:
+                chk.notes.append("known finding %s no longer reproduces (%s / %s)" % (k["id"], r[0][:60], r[1][:60]))
     chk.sample({"macro_program": cases[0][1][-500:], "inlined": cases[0][2][-300:], "results": [lines[0][:120], lines[1][:120]]})
     chk.traces += len(ops) + len(cert_ops)
 
